@@ -1,0 +1,19 @@
+package functions
+
+// AggPlaceholder returns the identifier that stands for one aggregate call
+// inside a post-aggregation expression template (e.g. sum(a) in "sum(a)+1").
+// It spells the call text in hex, so two different calls can never share a
+// placeholder (a hash of the text can collide: sum(Aa) and sum(BB) did), while
+// the same call written twice maps to the same aggregate.
+func AggPlaceholder(funcName, fullFuncCall string) string {
+	const hexDigits = "0123456789abcdef"
+	b := make([]byte, 0, len(funcName)+2*len(fullFuncCall)+5)
+	b = append(b, "__"...)
+	b = append(b, funcName...)
+	b = append(b, '_')
+	for i := 0; i < len(fullFuncCall); i++ {
+		b = append(b, hexDigits[fullFuncCall[i]>>4], hexDigits[fullFuncCall[i]&0x0f])
+	}
+	b = append(b, "__"...)
+	return string(b)
+}
